@@ -2,6 +2,7 @@
 
     Anchors (all under /repo/shexer):
     - utils/uri.py                      [remove_corners], [unprefixize_uri_if_possible], [add_corners]
+      (both accepted texts of the prefix expansion: [c_unprefix_ifp_once], [c_unprefix_sel_once])
     - utils/dict.py                     [reverse_keys_and_values]
     - utils/namespaces.py               [find_adequate_prefix_for_shapes_namespaces]
     - utils/target_elements.py          [tune_target_classes_if_needed]
@@ -81,8 +82,17 @@ Fixpoint first_prefix (pd : pdict) (s : str) : option (str * str) :=
   | (p, n) :: pd' => if prefixb (p ++ Str ":") s then Some (p, n) else first_prefix pd' s
   end.
 
-(** [uri.replace(prefix + ":", namespace)] -- every occurrence *)
-Definition unprefix (p n s : str) : str := replace_all (p ++ Str ":") n s.
+(** [uri.replace(prefix + ":", namespace)] -- every occurrence -- or
+    [uri.replace(prefix + ":", namespace, 1)] -- the leading one only (C10-F9).
+    Two copies of that line in the code, one flag each from gen_consts. *)
+Definition unprefix_with (once : bool) (p n s : str) : str :=
+  if once then replace_once (p ++ Str ":") n s else replace_all (p ++ Str ":") n s.
+
+(** the line inside utils/uri.py [unprefixize_uri_if_possible] *)
+Definition unprefix (p n s : str) : str := unprefix_with c_unprefix_ifp_once p n s.
+
+(** [NodeSelectorParser._unprefix_uri] *)
+Definition unprefix_sel (p n s : str) : str := unprefix_with c_unprefix_sel_once p n s.
 
 Definition unprefixize_uri_if_possible (target : str) (pd : pdict) (corners : bool) : str :=
   match first_prefix pd target with
@@ -139,7 +149,7 @@ Definition parse_uri_focus (pd : pdict) (tok : str) : res str :=
   else if suffixb (Str ">") tok then
     if prefixb (Str "<") tok then Ok tok else Err ExValue
   else match first_prefix pd tok with
-       | Some (p, n) => Ok (add_corners (unprefix p n tok))
+       | Some (p, n) => Ok (add_corners (unprefix_sel p n tok))
        | None => Err ExValue
        end.
 
@@ -196,7 +206,7 @@ Definition parse_node_selector (wf : str -> bool) (pd : pdict) (raw0 : str) : re
   else if prefixb (nth 1%nat c_sel_dispatch []) raw then parse_focus pd raw
   else if prefixb (nth 2%nat c_sel_dispatch []) raw then parse_sparql wf raw
   else match first_prefix pd raw with
-       | Some (p, n) => Ok (PSNode (unprefix p n raw))
+       | Some (p, n) => Ok (PSNode (unprefix_sel p n raw))
        | None => Ok PSNone
        end.
 
